@@ -195,6 +195,7 @@ def run(chk):
     k3 = 0
     # evaluation order matters for hand-rolled memo tables: oldest first, then newest, then the rest (and everything is re-read at the end)
     kept = []
+    famsets = {}
     for label, seq in fam:
         order = [0, len(seq) - 1] + list(range(1, len(seq) - 1))
         lists = {}
@@ -203,6 +204,7 @@ def run(chk):
             lists[i] = set(lst)
             kept.append((f"{label}#{i}", seq[i], list(lst)))
         sets = [lists[i] for i in range(len(seq))]
+        famsets[label] = (seq, sets)
         for i in range(len(sets) - 1):
             k3 += 1
             if not sets[i] <= sets[i + 1]:
@@ -218,7 +220,53 @@ def run(chk):
                      f"{sorted(set(now) - set(snap))[:3]}, which compare() does not account for")
             break
     chk.instance("R16.3", k3)
+    # R16.5: compare() against tag-set nesting on the DENSE release grid of each family (every ordered pair of releases, incl. the
+    # 10.16 / 11.0 boundary and mid-year macOS minors), same requires_python and implementation on both sides
+    chk.rule("R16.5", "compare() on every ordered pair of releases of one OS family/architecture is consistent with tag-set nesting")
+    k5 = 0
+    extra_mac = [plat(mk("Macos", M, 3), "x86_64") for M in (11, 12, 14)]
+    for label, (seq, sets) in famsets.items():
+        if chk.tier == "quick" and label.startswith("manylinux/") and label.split("/")[1] not in ("x86_64", "armv7l", "riscv64"):
+            continue
+        seq, sets = list(seq), list(sets)
+        if label == "macos/x86_64":
+            for pobj in extra_mac:
+                seq.append(pobj)
+                sets.append(set(it.getattr(pobj, "compatible_tags")))
+        envs = [dom.envspec(rps[">=3.8"], pobj, None) for pobj in seq]
+
+        def rel(pobj):
+            o = pobj.f["os"]
+            return f"{o.cls.name}({o.f.get('major')}, {o.f.get('minor')})"
+        tab = {}
+        for i, a in enumerate(envs):
+            for j, b in enumerate(envs):
+                try:
+                    tab[i, j] = names.get(id(it.call(Bound(cmpf, a), [b], {})))
+                except PyRaise as e:
+                    chk.fail("R16.5", f"{FN}:raises", f"compare({label} {rel(seq[i])}, {rel(seq[j])}) raises {e.exc!r}")
+        for (i, j), r in tab.items():
+            k5 += 1
+            rr = tab.get((j, i))
+            if i == j:
+                if r != "LOWER_OR_EQUAL":
+                    chk.fail("R16.5", f"{FN}:reflexive", f"{label}: compare(x, x) is {r} for x={rel(seq[i])}")
+                else:
+                    chk.ok("R16.5", key=(label, i, j), nontrivial=False)
+            elif (r == "INCOMPATIBLE") != (rr == "INCOMPATIBLE"):
+                chk.fail("R16.5", f"{FN}:incompatible-symmetry", f"{label}: compare({rel(seq[i])}, {rel(seq[j])}) = {r} but the converse is {rr}")
+            elif r == "HIGHER" and rr == "HIGHER":
+                chk.fail("R16.5", f"{FN}:higher-both-ways", f"{label}: compare is HIGHER in both directions for {rel(seq[i])} / {rel(seq[j])}")
+            elif r == "LOWER_OR_EQUAL" and not sets[i] <= sets[j]:
+                chk.fail("R16.5", f"{FN}:nesting", f"{label}: compare({rel(seq[i])}, {rel(seq[j])}) = LOWER_OR_EQUAL but the first accepts platform tags "
+                         f"the second rejects, e.g. {sorted(sets[i] - sets[j])[:3]}")
+            elif r == "HIGHER" and not sets[j] <= sets[i]:
+                chk.fail("R16.5", f"{FN}:nesting", f"{label}: compare({rel(seq[i])}, {rel(seq[j])}) = HIGHER but the second accepts platform tags "
+                         f"the first rejects, e.g. {sorted(sets[j] - sets[i])[:3]}")
+            else:
+                chk.ok("R16.5", key=(label, i, j))
+    chk.instance("R16.5", k5)
     chk.exhaustive = True
-    chk.analysed = {"specs": len(specs), "compare_pairs": n, "residuals": m, "release_steps": k3}
+    chk.analysed = {"specs": len(specs), "compare_pairs": n, "residuals": m, "release_steps": k3, "release_pairs": k5}
     chk.extra["rule_text"] = "R16.1: every ordered pair of grid specs (non-trivial = distinct specs); R16.2: every tag triple; R16.3: every consecutive release pair"
     chk.trusted += ["PEP 440 model; specifier algebra exactness (C01/C05) for `(a & b).is_empty()`"]
